@@ -71,6 +71,13 @@ func patternList(m map[string]bool, prefix string) []string {
 	return res
 }
 
+// addSet: the runner cannot digest an empty set.
+func addSet(res *vrun.Result, name string, vals []string) {
+	if len(vals) > 0 {
+		res.AddSet(name, vals...)
+	}
+}
+
 func addRT(res *vrun.Result, st rtStats) {
 	res.Stat("messages", 1)
 	res.Stat("encode_decode_round_trips", int64(len(st.Bytes)))
@@ -171,7 +178,7 @@ func TestC11Sweep(t *testing.T) {
 			"bytes_protobuf": st.Bytes["protobuf"], "bytes_json": st.Bytes["json"]}
 		addRT(&res, st)
 		res.AddSet("message_types", sc.T.Name())
-		res.AddSet("field_paths_compared", patternList(pats, sc.T.Name())...)
+		addSet(&res, "field_paths_compared", patternList(pats, sc.T.Name()))
 		res.AddSet("variant_assignments", sc.T.Name()+"{"+sc.AStr+"}")
 		res.AddSet("shapes", sc.Kind)
 		return res
@@ -931,7 +938,7 @@ func TestC11Random(t *testing.T) {
 			fmt.Fprintf(h, "%s/%d/%d/%s;", tn, st.Bytes["protobuf"], st.Bytes["json"], strings.Join(ch.shape, ","))
 			types = append(types, tn)
 			res.AddSet("message_types", tn)
-			res.AddSet("field_paths_compared", patternList(pats, tn)...)
+			addSet(&res, "field_paths_compared", patternList(pats, tn))
 			res.Stat("strings_non_ascii", int64(ch.nonASCII))
 			res.Stat("durations_between_resolution_steps", int64(ch.between))
 			res.Stat("durations_at_resolution_steps", int64(ch.atStep))
